@@ -674,6 +674,12 @@ class World:
         self._commit(t, self._fname('third'))
         sh('git push -q origin %s' % name, t)
 
+    def push_tag(self, tag, branch):
+        """A release: somebody tags the tip of a destination branch."""
+        u = self.user
+        sh('git fetch -q --prune origin; git tag %s origin/%s; git push -q origin %s' % (tag, branch, tag), u)
+        self.observe('env', act=dict(a='push_tag', tag=tag, branch=branch))
+
     def sync_mirror(self):
         """What the start of any job does to Bert-E's local mirror (~/.bert-e/<slug>.git): refresh it.  Stands for
         an event without effect delivered at this point."""
